@@ -500,8 +500,8 @@ func (r *Runner) cmd(ctx context.Context, cm syntax.Command) {
 					trace.expr(as)
 				} else if as.Value != nil {
 					val, err := syntax.Quote(vr.String(), syntax.LangBash)
-					if err != nil { // should never happen
-						panic(err)
+					if err != nil { // e.g. a null byte; trace the raw value
+						val = vr.String()
 					}
 					trace.stringf("%s=%s", name, val)
 				}
